@@ -50,6 +50,35 @@ theorem WF.pos {s : Stmt} (h : WF s) : ∀ l, l ∈ labels s → l ≠ 0 := by
   | join | spin => exact absurd h id
   | _ => intro l hl; simp [labels] at hl
 
+/-- `MayBlock s l c`: label `l` of `s` belongs to a blocking macro that can return code `c` there:
+PT_YIELD (yielded), PT_WAIT / PT_WAIT_UNTIL (waiting), or a PT_SPAWN whose child can block with `c` -/
+def MayBlock : Stmt → Label → Code → Prop
+  | yield l', l, c => l = l' ∧ c = .yielded
+  | wait l', l, c => l = l' ∧ c = .waiting
+  | waitUntil l' _, l, c => l = l' ∧ c = .waiting
+  | spawn l' ch, l, c => l = l' ∧ ∃ l2, MayBlock ch l2 c
+  | spawnAndCheck l' ch, l, c => l = l' ∧ ∃ l2, MayBlock ch l2 c
+  | join l' ch, l, c => l = l' ∧ ∃ l2, MayBlock ch l2 c
+  | seq a b, l, c => MayBlock a l c ∨ MayBlock b l c
+  | ifte _ a b, l, c => MayBlock a l c ∨ MayBlock b l c
+  | ifChildOk a b, l, c => MayBlock a l c ∨ MayBlock b l c
+  | .while _ b, l, c => MayBlock b l c
+  | _, _, _ => False
+
+/-- `MayReturn s c`: the function's own text contains a PT_EXIT(_ON) (`c` = exited) or a
+PT_FAIL(_ON) / PT_SPAWN_AND_CHECK (`c` = failed) -/
+def MayReturn : Stmt → Code → Prop
+  | exit, c => c = .exited
+  | exitOn _, c => c = .exited
+  | fail, c => c = .failed
+  | failOn _, c => c = .failed
+  | spawnAndCheck _ _, c => c = .failed
+  | seq a b, c => MayReturn a c ∨ MayReturn b c
+  | ifte _ a b, c => MayReturn a c ∨ MayReturn b c
+  | ifChildOk a b, c => MayReturn a c ∨ MayReturn b c
+  | .while _ b, c => MayReturn b c
+  | _, _ => False
+
 /-- give every PT_ macro its own line number, counting from `k` (what writing the body with one macro
 per source line does); residual forms are mapped back to their source forms -/
 def relabel : Stmt → Nat → Stmt × Nat
